@@ -457,7 +457,9 @@ func runC10(c *Ctx) {
 					v := ps[2]
 					last := u.mk("index", "", types.Typ[types.Uint8], v, u.Bin(token.SUB, u.Len(v), u.Int(1), types.Typ[types.Int]))
 					dot := u.ToBool(u.Eq(last, u.ConstVal(constantInt('.'), types.Typ[types.Uint8])))
-					if leaf != v || !u.bdd.Implies(u.bdd.And(cond, ef.Cond), dot) {
+					// ... or something with a dot appended
+					endsInDot := leaf.Op == "bin" && leaf.Aux == "+" && len(leaf.Args) == 2 && isStr(leaf.Args[1], ".")
+					if !endsInDot && (leaf != v || !u.bdd.Implies(u.bdd.And(cond, ef.Cond), dot)) {
 						bad = "the PTR value can be stored without a trailing dot (" + clip(u.Show(leaf), 60) + "): it must be a fully-qualified name"
 					}
 				}
